@@ -7,13 +7,13 @@ Local Open Scope Z_scope.
 
 (* schedules of a live connection: data trickles in, in arbitrary pieces, with EAGAIN anywhere *)
 Definition ev_live (e : rev) : bool :=
-  match e with RAvail _ => true | RAgain => true | REof => false | RErr => false end.
+  match e with RAvail _ => true | RAgain => true | REof => false | RErr _ => false end.
 Definition sched_live (s : list rev) : bool := forallb ev_live s.
 Definition lens_ok (lens : list Z) : bool := forallb (fun l => (1 <=? l) && (l <? two31)) lens.
 
 Definition errno_eqb (a b : errno) : bool :=
   match a, b with
-  | EAGAIN, EAGAIN | EPROTO, EPROTO | ECONNRESET, ECONNRESET | EIO, EIO => true
+  | EAGAIN, EAGAIN | EPROTO, EPROTO | ECONNRESET, ECONNRESET | EIO, EIO | EINTR, EINTR => true
   | _, _ => false
   end.
 
